@@ -119,7 +119,9 @@ fn unknown_block(rng: &mut Rng, g: &Grammar, tag: &str, depth: usize, out: &mut 
     }
     if depth < 2 && rng.coin() {
         for _ in 0..rng.urange(1, 2) {
-            let inner = format!("ZZ_INNER_{}", rng.below(5));
+            // an inner block may carry the tag of the block around it: only the outermost /end TAG
+            // ends the unknown element
+            let inner = if rng.chance(1, 4) { tag.to_string() } else { format!("ZZ_INNER_{}", rng.below(5)) };
             unknown_block(rng, g, &inner, depth + 1, out);
             for _ in 0..rng.below(2) {
                 scalar(rng, g, out);
@@ -127,6 +129,10 @@ fn unknown_block(rng: &mut Rng, g: &Grammar, tag: &str, depth: usize, out: &mut 
         }
     }
     out.push(Tok::end());
+    if rng.chance(1, 5) {
+        // comments can stand anywhere, also between /end and the tag
+        out.push(Tok::comment(if rng.coin() { "/* end of unknown */" } else { "// end of unknown" }));
+    }
     out.push(Tok::word(TK::EndTag, tag));
 }
 
@@ -169,6 +175,7 @@ pub fn run(args: &Args, rec: &mut Recorder) {
     let g = Grammar::load_default();
     let n_docs: u64 = if args.thorough { 100_000 } else { 5_000 };
     let max_slots = if args.thorough { usize::MAX } else { 20 };
+    let scratch = crate::c03::scratch_dir(args);
     run_cases(args, rec, n_docs, crate::util::reset_budget, |rng, case, rec| {
         let mut cfg = crate::c01::gen_cfg_wide(rng, args.thorough);
         cfg.max_elems = *rng.pick(&[8usize, 30, 80]);
@@ -238,10 +245,38 @@ pub fn run(args: &Args, rec: &mut Recorder) {
                         .with("text", Json::s(&clip(&text, 400))),
                 );
             }
-            let sigctx = if is_block { "unknown block" } else { "unknown keyword" };
-            let note = format!("inserted {tag} (block={is_block}) into {} at child index {}", slot.block_tag, slot.index);
+            // one case in four: the unknown element stands in an include file of its own, the
+            // directive takes its place in the main file
+            let via_include = rng.chance(1, 4);
+            let main_path = scratch.join("c07_main.a2l");
+            if via_include {
+                rec.bump(if is_block { "payload_in_include_file.block" } else { "payload_in_include_file.keyword" });
+                let mut main_text = String::with_capacity(text.len());
+                main_text.push_str(&text[..cut_from]);
+                main_text.push_str("/include \"c07_inc.a2l\"");
+                main_text.push_str(&text[cut_to..]);
+                std::fs::write(&main_path, &main_text).unwrap();
+                std::fs::write(scratch.join("c07_inc.a2l"), &text[cut_from..cut_to]).unwrap();
+            }
+            let load_variant = |strict: bool| {
+                if via_include {
+                    crate::util::set_budget(crate::c03::step_budget(text.len() * 2));
+                    let r = vcommon::runtime::guarded(|| a2lfile::load(&main_path, None, strict));
+                    crate::util::reset_budget();
+                    r
+                } else {
+                    load_str(&text, strict)
+                }
+            };
+            let sigctx = match (is_block, via_include) {
+                (true, false) => "unknown block",
+                (false, false) => "unknown keyword",
+                (true, true) => "unknown block in an include file",
+                (false, true) => "unknown keyword in an include file",
+            };
+            let note = format!("inserted {tag} (block={is_block}, in include file c07_inc.a2l={via_include}) into {} at child index {}", slot.block_tag, slot.index);
             // non-strict
-            match load_str(&text, false) {
+            match load_variant(false) {
                 Err((sig, detail)) => rec.violation(&sig, &detail, witness_text("C07", &text, &note)),
                 Ok(Err(e)) => rec.violation(
                     &format!("{sigctx}: non-strict load fails: {}", err_class(&e)),
@@ -285,7 +320,7 @@ pub fn run(args: &Args, rec: &mut Recorder) {
                 }
             }
             // strict
-            match load_str(&text, true) {
+            match load_variant(true) {
                 Err((sig, detail)) => rec.violation(&sig, &detail, witness_text("C07", &text, &note)),
                 Ok(Ok(_)) => rec.violation(
                     &format!("{sigctx}: strict load accepts the unknown element"),
@@ -307,7 +342,10 @@ pub fn run(args: &Args, rec: &mut Recorder) {
         }
         None
     });
+    let _ = std::fs::remove_dir_all(&scratch);
     rec.floor("baseline_docs", 10);
+    rec.floor("payload_in_include_file.block", 5);
+    rec.floor("payload_in_include_file.keyword", 5);
     rec.floor("payload.block", 10);
     rec.floor("payload.keyword", 10);
     // every block kind that has optional sub-elements must have received insertions
